@@ -29,7 +29,8 @@ Inductive op :=
 | OpQOne (k : skey) (ik : ikey)                  (* Query *)
 | OpQPage (ns : option N)                        (* QueryServiceInfoPage *)
 | OpQSvc (k : skey)                              (* QueryServiceOnly *)
-| OpQClients.                                    (* QueryClientInstanceCount *)
+| OpQClients                                     (* QueryClientInstanceCount *)
+| OpTimeCheckB (n : N) (order : list skey).      (* PeekListenerTimeout with once_time_check_size = n, service_map order *)
 
 Inductive out :=
 | OOk
@@ -78,6 +79,7 @@ Definition step (c : cfg) (hashf : skey -> N) (a : actor) (o : op) : actor * out
   | OpQPage ns => let '(n, l) := get_service_info_page a ns in (a, OPage n l)
   | OpQSvc k => (a, OSvc (match sget k (a_svcs a) with Some s => Some (s_size s, s_hsize s) | None => None end))
   | OpQClients => (a, OCounts (map (fun e => (fst e, N.of_nat (length (snd e)))) (a_clients a)))
+  | OpTimeCheckB n order => (time_check_budget c n order a, OOk)
   end.
 
 Definition run_all (c : cfg) (hashf : skey -> N) (a : actor) (ops : list op) : actor :=
